@@ -321,6 +321,13 @@ type ipv6HeaderTLVOption struct {
 }
 
 func (h *ipv6HeaderTLVOption) serializeTo(data []byte, fixLengths bool, dryrun bool) int {
+	if h.OptionType == 0 && h.ActualLength == 1 {
+		// a decoded Pad1 option is a single zero byte without length
+		if !dryrun {
+			data[0] = 0
+		}
+		return 1
+	}
 	if fixLengths {
 		h.OptionLength = uint8(len(h.OptionData))
 	}
@@ -406,7 +413,7 @@ func serializeIPv6HeaderTLVOptions(buf []byte, options []*ipv6HeaderTLVOption, f
 		length += l
 	}
 	if fixLengths {
-		pad := length % 8
+		pad := (8 - length%8) % 8
 		if pad != 0 {
 			if !dryrun {
 				serializeTLVOptionPadding(buf[length-2:], pad)
